@@ -17,5 +17,7 @@ MCIdPages2 == { <<0,0,0,1>> }
 MCFlagsA == { {0}, {0,1,7,63}, {1,2} }
 \* two sets only (sequences of three are expensive): a present leaf with bit 7 and NX, and a non-present request
 MCFlagsA2 == { {0,1,7,63}, {1,2} }
-MCFlagsB == { {0}, {0,1,5,6,7}, {0,2,63}, {0,7,9,63}, {0,1,2,3,4,8}, {1,9,63} }
+\* small scope for re-mapping a page to a DIFFERENT frame (two leaf frames, sequences of three)
+MCOpPagesR == { <<0,0,0,0>>, <<0,0,0,1>>, <<0,1,0,0>> }
+MCFlagsB == { {0,10,52,62}, {0,1,5,6,7}, {0,2,63}, {0,7,9,63}, {0,1,2,3,4,8}, {1,9,63} }
 ====
